@@ -121,9 +121,44 @@ def ob_fm_gate(pid, maxe=12):
                     unwind=maxe + 2, unwindset=GATE_UNWIND, replace=GATE_REPLACE_FM, clang_extra=["-fno-inline", "-DVF_INSTANTIATE_STRING"],
                     weight_gb=8, timeout=2400, object_bits=10)
 
+W_HFE = "w_hfe.cc"
+W_HXC = "w_hxc.cc"
+def ob_hxc_adapter(pid, drop):
+    return X.cxx_ob(pid, "hxc_adapter.drop%d" % drop, W_HXC, "h_hxc_adapter",
+                    "HxcMfmFile::DataAccessAdapter::read_block(lba): the sector returned carries exactly the address (lba div spt, lba mod spt), or the read fails",
+                    "2 tracks x 2 records, sector %s dropped by track decoding (constant per query), lba symbolic; 4 data bytes stand for 256" % (drop if drop < 4 else "none"),
+                    ["dfs/img_hxcmfm.cc:HxcMfmFile::DataAccessAdapter::read_block"], unwind=8, defines=("NDEBUG", "HXC_DROP=%d" % drop))
+def ob_hfe_adapter(pid, drop):
+    return X.cxx_ob(pid, "hfe_adapter.drop%d" % drop, W_HFE, "h_hfe_adapter",
+                    "HfeFile::DataAccessAdapter::read_block(lba) on side 0 or 1: the sector returned carries exactly the address (lba div spt, side, lba mod spt), "
+                    "a decoded sector is found on either side, otherwise the read fails",
+                    "2 tracks x 2 records, side symbolic, sector %s dropped (constant per query), lba symbolic" % (drop if drop < 4 else "none"),
+                    ["dfs/img_hfe.cc:HfeFile::DataAccessAdapter::read_block", "find_sector", "dfs/track.cc:SectorAddress::operator=="], unwind=8,
+                    defines=("NDEBUG", "HFE_DROP=%d" % drop))
+def ob_copy_hfe(pid, n=5):
+    return X.cxx_ob(pid, "copy_hfe.N%d" % n, W_HFE, "h_copy_hfe",
+                    "copy_hfe (HFE v1 and v3 opcode interpreter) against the format description: every non-opcode byte yields its 8 cells MSB first; NOP/SETINDEX "
+                    "take no operand; SETBITRATE consumes one operand byte of any value; RAND yields one unreadable byte; undefined opcodes are rejected",
+                    "<= %d input bytes symbolic, v1/v3 symbolic; SKIPBITS (0xF3) excluded (specification not available offline, see DESIGN)" % n,
+                    ["dfs/img_hfe.cc:copy_hfe", "is_hfe3_opcode", "premature_stream_end"], unwind=n + 3, unwindset=[("X_strlen", 64), ("vf_ostream3num", 24)],
+                    defines=("NDEBUG", "HFE_BYTES=%d" % n), weight_gb=6, noop_re=[r"_M_realloc_insert"])
+def ob_hfe_header(pid):
+    return X.cxx_ob(pid, "hfe_header", W_HFE, "h_hfe_header", "decode_header field offsets and PicTrack offset/length (length rounded up to 512)",
+                    "26 header bytes and 4 table bytes symbolic", ["dfs/img_hfe.cc:decode_header", "PicTrack", "le_word"], unwind=30, weight_gb=3)
+
+@prop("C05")
+def c05(tier):
+    drops = (1, 4) if tier == "quick" else (0, 1, 2, 3, 4)
+    obs = [ob_reverse_bits("C05"), ob_crc_step("C05"), ob_copy_hfe("C05", 5 if tier == "quick" else 7), ob_hfe_header("C05")]
+    obs += [ob_hfe_adapter("C05", d) for d in drops] + [ob_hxc_adapter("C05", d) for d in drops]
+    return obs, dict(assumptions=CXX_ASSUME)
+
 @prop("C06")
 def c06(tier):
-    obs = [ob_crc_step("C06")]      # ob_fm_gate: no verdict within 40 min / OOM (see DESIGN.md), not registered
+    # ob_fm_gate (decoder glue under contract stubs): no verdict within 40 min / out of memory at the SAT stage (DESIGN.md 10) -> not registered
+    drops = (0, 3, 4) if tier == "quick" else (0, 1, 2, 3, 4)
+    obs = [ob_crc_step("C06")] + [ob_hxc_adapter("C06", d) for d in drops] + [ob_hfe_adapter("C06", d) for d in drops]
+    return obs, dict(assumptions=CXX_ASSUME)
     return obs, dict(assumptions=CXX_ASSUME)
 
 W_ID = "w_identify.cc"
@@ -209,6 +244,7 @@ def c01(tier):
 @prop("C17")
 def c17(tier):
     obs = [ob_volume_access("C17"), ob_fileview_far("C17")] + [ob_fileview("C17", t) for t in ((10, 800) if tier == "quick" else TAKES_ALL)]
+    obs += [ob_hfe_adapter("C17", 4), ob_hxc_adapter("C17", 4)]
     return obs, dict(assumptions=CXX_ASSUME)
 
 @prop("C11")
@@ -217,6 +253,7 @@ def c11(tier):
     ds = [("6502", 0), ("ARM", 2)] if tier == "quick" else B.DIALECTS
     obs = [B.line_ob("C11", d, n, "IOFAIL", L) for d, n in ds]
     obs += [B.main_ob("C11", "IOFAIL", ndebug=True)]
+    obs += [ob_sector_walk("C11", 1024)]      # extract-files: a failed write (visitor returns false) stops the walk and is reported to the caller
     return obs, dict(assumptions=BASIC_ASSUME + ["stdout failure model: each stdout call may report failure (and set the error indicator) from a "
         "nondeterministically chosen call on, or be accepted into a buffer that fails at the next fflush -- ISO C guarantees only, no glibc specifics"])
 
